@@ -239,7 +239,22 @@ fn no_esc(check: char, match_char: char, previous: char) -> bool {
 /// # Return
 /// * `Token`
 ///
-fn group_tokens(tokens: &Vec<Token>, mut index: usize) -> Token {
+fn group_tokens(tokens: &Vec<Token>, index: usize) -> Token {
+    let (token, _) = group_tokens_from(tokens, index);
+    return token;
+} // group_tokens
+
+/// Does the work of group_tokens(). Besides the GROUP token, it returns
+/// the index at which it stopped: the index of the right parenthesis
+/// which closes the group (or the number of tokens, if there is none).
+///
+/// The caller needs this index in order to skip the tokens which were
+/// processed. (The number of children of the GROUP token is not enough:
+/// a group which contains groups has fewer children than tokens. Skipping
+/// too few tokens made nested groups be processed again and again, in
+/// time exponential in the depth of nesting.)
+fn group_tokens_from(tokens: &Vec<Token>,
+                     mut index: usize) -> (Token, usize) {
 
     let mut new_tokens: Vec<Token> = vec![];
     let size = tokens.len();
@@ -252,14 +267,15 @@ fn group_tokens(tokens: &Vec<Token>, mut index: usize) -> Token {
         if the_type == TokenType::LParen {
             index += 1;
             // Make a GROUP token.
-            let t = group_tokens(tokens, index);
+            let (t, stopped_at) = group_tokens_from(tokens, index);
             // Skip past tokens already processed.
             // +1 for right parenthesis
-            index += t.number_of_children() + 1;
+            index = stopped_at + 1;
             new_tokens.push(t);
         } else if the_type == TokenType::RParen {
             // Add all remaining tokens to the list.
-            return make_branch_token(TokenType::Group, new_tokens);
+            let t = make_branch_token(TokenType::Group, new_tokens);
+            return (t, index);
         } else {
             new_tokens.push(token);
         }
@@ -267,9 +283,9 @@ fn group_tokens(tokens: &Vec<Token>, mut index: usize) -> Token {
 
     } // for
 
-    return make_branch_token(TokenType::Group, new_tokens)
+    return (make_branch_token(TokenType::Group, new_tokens), size);
 
-} // group_tokens
+} // group_tokens_from
 
 
 /// group_and_tokens()
